@@ -89,6 +89,7 @@ def install(eng):
     eng.builtin_hooks['dict'] = bi_dict
     eng.builtin_hooks['dict.update'] = bi_dict_update
     eng.builtin_hooks['open'] = bi_open
+    eng.builtin_hooks['getattr'] = bi_getattr
     eng._products = {}
     eng._star_arg = None
     eng.attr_hooks[('module:Tags', '*')] = tags_module_attr
@@ -414,12 +415,59 @@ def ext_file_close(eng, f, args, kwargs):
     return VNone()
 
 
+def _overlay(eng, st=None):
+    """Ghost overlay of item assignments on opaque (description) dictionaries: X[k] = v."""
+    has = eng.S.h.get(('g', '$ov_has')) if st is None else st.h.get(('g', '$ov_has'))
+    val = eng.S.h.get(('g', '$ov_val')) if st is None else st.h.get(('g', '$ov_val'))
+    if has is None:
+        has = z3.K(I, z3.K(I, z3.BoolVal(False)))
+        val = z3.K(I, z3.K(I, z3.IntVal(0)))
+    return has, val
+
+
 def ext_any_getitem(eng, obj, args, kwargs):
-    eng.used_assumption('indexing a user-supplied table is a pure function of (table, index)')
+    eng.used_assumption('indexing an opaque value (user table, decoded description) is a pure function of (object, key), '
+                        'overridden by item assignments made by the verified function itself')
     k = args[0]
     kt = k.term if hasattr(k, 'term') and k.term.sort() == I else eng.coerce(k, ty.ANY)
     fn = z3.Function('item_of', I, I, I)
-    return VRef(fn(obj.term, kt), ty.ANY)
+    has, val = _overlay(eng, obj.st)
+    return VRef(z3.If(z3.Select(z3.Select(has, obj.term), kt), z3.Select(z3.Select(val, obj.term), kt),
+                      fn(obj.term, kt)), ty.ANY, obj.st)
+
+
+def ext_any_setitem(eng, obj, args, kwargs):
+    k, v = args
+    kt = k.term if hasattr(k, 'term') and k.term.sort() == I else eng.coerce(k, ty.ANY)
+    vt = eng.coerce(v, ty.ANY)
+    has, val = _overlay(eng)
+    eng.S.h[('g', '$ov_has')] = z3.Store(has, obj.term, z3.Store(z3.Select(has, obj.term), kt, z3.BoolVal(True)))
+    eng.S.h[('g', '$ov_val')] = z3.Store(val, obj.term, z3.Store(z3.Select(val, obj.term), kt, vt))
+    return VNone()
+
+
+def ext_any_contains(eng, obj, args, kwargs):
+    rec_has = z3.Function('rec_has', I, I, B)
+    k = args[0]
+    return VBool(rec_has(obj.term, k.term))
+
+
+def ext_any_decode(eng, callee, args, kwargs):
+    """X.decode(params) of a user class (IDecodable): returns the decoded object (opaque)."""
+    eng.used_assumption('decode classmethods and lifecycle hooks are user code: they do not mutate the description')
+    return VRef(eng.fresh('decoded', I), ty.ANY)
+
+
+def ext_sys_modules(eng, selfv, args, kwargs):
+    f = z3.Function('module_named', I, I)
+    return VRef(f(args[0].term), ty.ANY)
+
+
+def bi_getattr(eng, args, kwargs, node):
+    """getattr(module, name, default): name resolution through sys.modules (uninterpreted `resolve`)."""
+    obj, name = args[0], args[1]
+    f = z3.Function('resolve_attr', I, I, I)
+    return VRef(f(obj.term, name.term), ty.ANY)
 
 
 def ext_any_call(eng, f, args, kwargs):
@@ -453,6 +501,10 @@ EXTERNALS = {
     'statistics.mean': _ext_agg('mean'), 'statistics.variance': _ext_agg('variance'),
     'functools.partial': ext_partial,
     'any.__getitem__': ext_any_getitem,
+    'any.__setitem__': ext_any_setitem,
+    'any.__contains__': ext_any_contains,
+    'any.decode': ext_any_decode,
+    'sys.modules.__getitem__': ext_sys_modules,
     'Random.choice': ext_random_choice,
     'Random.shuffle': ext_random_shuffle,
     'Logger.info': ext_logger_noop,
@@ -509,7 +561,70 @@ def eff_system_execute_dyn(eng, env, pre):
                         'registered is in `added`)')
 
 
+def _g(eng, name, default=None):
+    return eng.arr(('g', name))
+
+
+def eff_decode_init(eng, env, pre):
+    for n in ('pre_model_done', 'model_done', 'post_model_done'):
+        eng.S.h[('g', n)] = z3.BoolVal(False)
+    for n in ('n_sys_decoded', 'n_sys_added', 'n_agents_decoded', 'n_agents_added', 'last_obj'):
+        eng.S.h[('g', n)] = z3.IntVal(0)
+    for n in ('sys_pre_done', 'sys_post_done', 'grp_pre_done', 'grp_post_done'):
+        eng.S.h[('g', n)] = z3.K(I, z3.BoolVal(False))
+    eng.S.h[('g', '$ov_has')] = z3.K(I, z3.K(I, z3.BoolVal(False)))
+    eng.S.h[('g', '$ov_val')] = z3.K(I, z3.K(I, z3.IntVal(0)))
+
+
+def _set(name, fn):
+    def eff(eng, env, pre):
+        fn(eng, env)
+    return eff
+
+
+def _flag(name):
+    return lambda eng, env: eng.S.h.__setitem__(('g', name), z3.BoolVal(True))
+
+
+def _inc(name):
+    return lambda eng, env: eng.S.h.__setitem__(('g', name), eng.arr(('g', name)) + 1)
+
+
+def _mapset(name, idxvar):
+    def f(eng, env):
+        a = eng.arr(('g', name))
+        eng.S.h[('g', name)] = z3.Store(a, env[idxvar].term, z3.BoolVal(True))
+    return f
+
+
+def _decoded(counter):
+    def f(eng, env):
+        eng.S.h[('g', counter)] = eng.arr(('g', counter)) + 1
+        eng.S.h[('g', 'last_obj')] = env['result'].term
+    return f
+
+
+def _model_made(eng, env):
+    eng.S.h[('g', 'model_done')] = z3.BoolVal(True)
+
+
+def _group_reset(eng, env):
+    pass
+
+
 EFFECTS = {
+    'decode_init': eff_decode_init,
+    'ev_pre_model': _set('pre_model', _flag('pre_model_done')),
+    'ev_model': _set('model', _model_made),
+    'ev_post_model': _set('post_model', _flag('post_model_done')),
+    'ev_sys_pre': _set('sys_pre', _mapset('sys_pre_done', 'si')),
+    'ev_sys_post': _set('sys_post', _mapset('sys_post_done', 'si')),
+    'ev_sys_decoded': _set('sys_dec', _decoded('n_sys_decoded')),
+    'ev_sys_added': _set('sys_add', _inc('n_sys_added')),
+    'ev_grp_pre': _set('grp_pre', _mapset('grp_pre_done', 'gi')),
+    'ev_grp_post': _set('grp_post', _mapset('grp_post_done', 'gi')),
+    'ev_agent_decoded': _set('ag_dec', _decoded('n_agents_decoded')),
+    'ev_agent_added': _set('ag_add', _inc('n_agents_added')),
     'sched_ghost_init_dyn': eff_sched_ghost_init_dyn,
     'system_execute_dyn': eff_system_execute_dyn,
     'sched_ghost_init': eff_sched_ghost_init,
